@@ -267,7 +267,15 @@ pub fn dump(rng: &mut Rng, count: u64, emit: Emit) {
         let test_mode = rng.chance(1, 5);
         if test_mode { opts.set_test(); }
         rp.set_options(opts);
-        let result = match std::panic::catch_unwind(std::panic::AssertUnwindSafe(|| rp.dump_y86_str())) {
+        let result = match std::panic::catch_unwind(std::panic::AssertUnwindSafe(|| {
+            // the same state printed several times must give the same text (C12)
+            let first = rp.dump_y86_str();
+            for _ in 0..5 {
+                let again = rp.dump_y86_str();
+                if again != first { return format!("NONDETERMINISTIC-DUMP first: {} other: {}", first, again); }
+            }
+            first
+        })) {
             Ok(s) => s,
             Err(_) => String::from("PANIC"),
         };
@@ -309,7 +317,11 @@ pub fn options(rng: &mut Rng, count: u64, emit: Emit) {
                 for _ in 0..g.cycles {
                     let mut out: Vec<u8> = Vec::new();
                     // values as they are just before the clock edge are what the table shows: recompute from a twin
-                    match rp.step_with_output(&mut out) {
+                    let stepped = match std::panic::catch_unwind(std::panic::AssertUnwindSafe(|| rp.step_with_output(&mut out))) {
+                        Ok(r) => r,
+                        Err(_) => { fin = String::from("PANIC-UNDER-OPTIONS"); break; }
+                    };
+                    match stepped {
                         Ok(()) => {
                             write!(states, " {}", crate::progrun::state_string(&rp)).unwrap();
                             if sub & 2 != 0 {
@@ -354,7 +366,7 @@ pub fn table(rng: &mut Rng, count: u64, emit: Emit) {
         let full = format!("{}{}", hclrs::verif_hooks::y86_preamble(), text);
         let sexp = match hclrs::verif_hooks::parse_statements(&full) { Ok(s) => s, Err(_) => { emit(format!("(noparse {})", sexp_escape(&text)), String::from("noparse")); continue; } };
         let contents = hclrs::FileContents::new_from_data(hclrs::verif_hooks::y86_preamble(), &text, "t.hcl");
-        let result = match hclrs::parse_y86_hcl(&contents) {
+        let result = std::panic::catch_unwind(std::panic::AssertUnwindSafe(|| match hclrs::parse_y86_hcl(&contents) {
             Err(e) => format!("rej {}", crate::progrun::diag_string(&hclrs::verif_hooks::error_summary(&e))),
             Ok(program) => {
                 let mut rp = hclrs::RunningProgram::new_y86(program);
@@ -379,7 +391,7 @@ pub fn table(rng: &mut Rng, count: u64, emit: Emit) {
                 }
                 format!("{}end={}", all, fin)
             }
-        };
+        })).unwrap_or(String::from("PANIC"));
         let mut memf = String::from("(mem");
         for (a, b) in &g.mem { write!(memf, " ({} {})", a, b).unwrap(); }
         memf.push(')');
